@@ -1,5 +1,7 @@
 """C12 - Every HTTP response is classified into exactly one documented outcome."""
 import hashlib
+
+import httpx
 import itertools
 import json
 
@@ -190,13 +192,21 @@ def run_table(case):
     expected = classify(status, content)
     failures, nts, units = [], [], 0
     for variant in bc.VARIANTS:
-        client = bc.make(variant, lambda req: None)
-        resp = bc.response(status, content, headers={"content-type": "application/json"})
+        # the whole path a generated method takes: execute() over a transport answering with the response, then
+        # get_data(); nothing but the documented errors may escape from either step
+        client = bc.make(variant, lambda req: httpx.Response(status, content=content, headers={"content-type": "application/json"}))
         value = exc = None
-        try:
-            value = client.get_data(resp)
-        except BaseException as e:  # noqa: BLE001
-            exc = e
+        resp, exc = bc.execute(client, variant, "query Q { a }", "Q", {}, {})
+        if exc is None:
+            try:
+                value = client.get_data(resp)
+            except BaseException as e:  # noqa: BLE001
+                exc = e
+        else:
+            failures.append({"clause": "execute_raised", "sig": f"{type(exc).__name__}:{variant[0]}",
+                             "msg": f"status={status} body={content[:200]!r} variant={variant[0]}: execute() raised {exc!r}"[:600]})
+            units += 1
+            continue
         units += 1
         bad = check_outcome(expected, value, exc, content)
         if bad:
